@@ -88,7 +88,9 @@ contract(L + '.restore_placement',
                    'forall(lambda n: implies(n in self.cell.apps and zk_exists(pl(servername, n)) and '
                    '       not tok_identity_none(zk_content(pl(servername, n))), '
                    '       self.cell.apps[n].identity_group_ref is not None), "Name")'],
-         ensures=[# places nothing that is not recorded
+         ensures=[# C01's per-server invariant survives the reload (capacity accounting, server -> instance view)
+                  'inv_server(self.servers[servername])', 'inv_server_aff(self.servers[servername])',
+                  # places nothing that is not recorded
                   ('C11', 'forall(lambda a: implies(a in self.cell.apps and self.cell.apps[a].server == servername and '
                           '       a in self.servers[servername].apps, old(zk_exists(pl(servername, a)))), "Name")',
                    'places_only_recorded'),
